@@ -124,7 +124,7 @@ pub proof fn lemma_body_coin(fs: Seq<asp::AtomicFormula>, w: World, m: HT, s1: A
 }
 
 // ---- forall G V (val_t(V) & tau^B(Body) [& not not p(V)] -> p(V)) ----------------------------------------------------
-pub open spec fn head_terms(h: asp::Head) -> Seq<asp::Term> {
+pub open spec fn head_args(h: asp::Head) -> Seq<asp::Term> {
     match h { asp::Head::Basic(a) => a.terms@, asp::Head::Choice(a) => a.terms@, asp::Head::Falsity => Seq::empty() }
 }
 pub open spec fn head_pred(h: asp::Head) -> Seq<char> {
@@ -193,7 +193,7 @@ pub proof fn lemma_overwrite(s: Asg, gv: Seq<Variable>, g: Asg)
 
 pub open spec fn rule_side(r: asp::Rule, gv: Seq<Variable>, vnames: Seq<String>) -> bool {
     &&& distinct_names(vnames)
-    &&& vnames.len() == head_terms(r.head).len()
+    &&& vnames.len() == head_args(r.head).len()
     &&& forall|i: int, k: VKey| 0 <= i < vnames.len() && #[trigger] rule_in(r, k) ==> k != #[trigger] zkey(vnames[i])
     &&& forall|k: VKey| rule_in(r, k) || bound_by(zvars(vnames), k) ==> #[trigger] bound_by(gv, k)
     &&& forall|i: int| 0 <= i < gv.len() ==> (#[trigger] gv[i]).sort == Sort::General
@@ -210,14 +210,14 @@ pub proof fn lemma_rule_fwd_at(r: asp::Rule, gv: Seq<Variable>, vnames: Seq<Stri
         forall|s2: Asg| variant(s2, s, gv) ==> #[trigger] ht_sat(imp, w, m, s2),
         vs.len() == vnames.len(), w2 == w || w2 == World::There, body_sat(r.body.formulas@, w2, m, g),
     ensures
-        tuple_vals(head_terms(r.head), inst_asg(s, gv, g, vnames, vs), vs) == tuple_vals(head_terms(r.head), g, vs),
+        tuple_vals(head_args(r.head), inst_asg(s, gv, g, vnames, vs), vs) == tuple_vals(head_args(r.head), g, vs),
         zs(vnames, inst_asg(s, gv, g, vnames, vs)) =~= vs,
         head_lhs(r.head, vnames, m, inst_asg(s, gv, g, vnames, vs)) ==> head_rhs(r.head, vnames, w2, m, inst_asg(s, gv, g, vnames, vs)),
 {
     let base = overwrite(s, gv, g);
     lemma_overwrite(s, gv, g);
     let b = r.body.formulas@;
-    let ts = head_terms(r.head);
+    let ts = head_args(r.head);
     let s2 = with_vals(base, vnames, vs);
     lemma_with_vals(base, vnames, vs);
     lemma_with_vals_variant(base, vnames, vs);
@@ -256,7 +256,7 @@ pub proof fn lemma_rule_fwd(r: asp::Rule, gv: Seq<Variable>, vnames: Seq<String>
     ensures inst_sat(r, w, m, g),
 {
     let b = r.body.formulas@;
-    let ts = head_terms(r.head);
+    let ts = head_args(r.head);
     let p = head_pred(r.head);
     assert forall|w2: World| (w2 == w || w2 == World::There) && body_sat(b, w2, m, g) implies #[trigger] head_sat(r.head, w2, m, g) by {
         match r.head {
@@ -274,7 +274,7 @@ pub proof fn lemma_rule_fwd(r: asp::Rule, gv: Seq<Variable>, vnames: Seq<String>
 }
 
 pub proof fn lemma_rule_bwd(r: asp::Rule, vnames: Seq<String>, imp: Formula, w: World, m: HT, s2: Asg)
-    requires imp_sem(imp, r, vnames), ht_wf(m), inst_sat(r, w, m, s2), vnames.len() == head_terms(r.head).len(),
+    requires imp_sem(imp, r, vnames), ht_wf(m), inst_sat(r, w, m, s2), vnames.len() == head_args(r.head).len(),
     ensures ht_sat(imp, w, m, s2),
 {
     let b = r.body.formulas@;
@@ -347,19 +347,19 @@ pub proof fn lemma_valtz_plain(terms: Seq<asp::Term>, vnames: Seq<String>, vals:
 /// `core` is  val_t(V) & tau^B(Body)  (or just tau^B(Body) when the head has no arguments), read semantically
 pub open spec fn core_sem(core: Formula, r: asp::Rule, vnames: Seq<String>) -> bool {
     &&& forall|w: World, m: HT, s: Asg| ht_wf(m) ==> #[trigger] ht_sat(core, w, m, s)
-            == (tuple_vals(head_terms(r.head), s, zs(vnames, s)) && body_sat(r.body.formulas@, w, m, s))
+            == (tuple_vals(head_args(r.head), s, zs(vnames, s)) && body_sat(r.body.formulas@, w, m, s))
     &&& forall|k: VKey| #[trigger] fv(core, k) ==> rule_in(r, k) || bound_by(zvars(vnames), k)
 }
 
 pub proof fn lemma_core_fo(r: asp::Rule, vnames: Seq<String>, vals: Seq<Formula>, bodyf: Formula, core: Formula)
     requires
         !(r.head is Falsity), body_ok(bodyf, r.body),
-        vnames.len() == head_terms(r.head).len(), vals.len() == vnames.len(),
-        forall|i: int| 0 <= i < vals.len() ==> #[trigger] val_ok(vals[i], head_terms(r.head)[i], zvar(vnames[i])),
+        vnames.len() == head_args(r.head).len(), vals.len() == vnames.len(),
+        forall|i: int| 0 <= i < vals.len() ==> #[trigger] val_ok(vals[i], head_args(r.head)[i], zvar(vnames[i])),
         is_conj(core), *core->BinaryFormula_lhs == spec_conjoin(vals), *core->BinaryFormula_rhs == bodyf,
     ensures core_sem(core, r, vnames),
 {
-    let ts = head_terms(r.head);
+    let ts = head_args(r.head);
     assert forall|w: World, m: HT, s: Asg| ht_wf(m) implies #[trigger] ht_sat(core, w, m, s) == (tuple_vals(ts, s, zs(vnames, s)) && body_sat(r.body.formulas@, w, m, s)) by {
         lemma_valtz_plain(ts, vnames, vals, w, m, s);
         assert(ht_sat(core, w, m, s) == (ht_sat(*core->BinaryFormula_lhs, w, m, s) && ht_sat(*core->BinaryFormula_rhs, w, m, s)));
@@ -379,12 +379,12 @@ pub proof fn lemma_core_fo(r: asp::Rule, vnames: Seq<String>, vals: Seq<Formula>
 }
 
 pub proof fn lemma_core_prop(r: asp::Rule, bodyf: Formula)
-    requires body_ok(bodyf, r.body), head_terms(r.head).len() == 0,
+    requires body_ok(bodyf, r.body), head_args(r.head).len() == 0,
     ensures core_sem(bodyf, r, Seq::<String>::empty()),
 {
     let e = Seq::<String>::empty();
-    assert forall|w: World, m: HT, s: Asg| ht_wf(m) implies #[trigger] ht_sat(bodyf, w, m, s) == (tuple_vals(head_terms(r.head), s, zs(e, s)) && body_sat(r.body.formulas@, w, m, s)) by {
-        assert(tuple_vals(head_terms(r.head), s, zs(e, s)));
+    assert forall|w: World, m: HT, s: Asg| ht_wf(m) implies #[trigger] ht_sat(bodyf, w, m, s) == (tuple_vals(head_args(r.head), s, zs(e, s)) && body_sat(r.body.formulas@, w, m, s)) by {
+        assert(tuple_vals(head_args(r.head), s, zs(e, s)));
     }
 }
 
@@ -402,7 +402,7 @@ pub open spec fn imp_shape(imp: Formula, core: Formula, h: asp::Head, vnames: Se
 }
 
 pub proof fn lemma_imp_sem(r: asp::Rule, vnames: Seq<String>, core: Formula, imp: Formula)
-    requires core_sem(core, r, vnames), imp_shape(imp, core, r.head, vnames), vnames.len() == head_terms(r.head).len(),
+    requires core_sem(core, r, vnames), imp_shape(imp, core, r.head, vnames), vnames.len() == head_args(r.head).len(),
     ensures imp_sem(imp, r, vnames),
 {
     let p = head_pred(r.head);
@@ -412,7 +412,7 @@ pub proof fn lemma_imp_sem(r: asp::Rule, vnames: Seq<String>, core: Formula, imp
     assert forall|w: World, m: HT, s: Asg| ht_wf(m) implies
         #[trigger] ht_sat(imp_lhs(imp), w, m, s) == (head_lhs(r.head, vnames, m, s) && body_sat(r.body.formulas@, w, m, s)) by {
         lemma_zterms(vnames, m.fc, s);
-        assert(ht_sat(core, w, m, s) == (tuple_vals(head_terms(r.head), s, zs(vnames, s)) && body_sat(r.body.formulas@, w, m, s)));
+        assert(ht_sat(core, w, m, s) == (tuple_vals(head_args(r.head), s, zs(vnames, s)) && body_sat(r.body.formulas@, w, m, s)));
         match r.head {
             asp::Head::Choice(a) => {
                 let nn = *lhs->BinaryFormula_rhs;
@@ -420,7 +420,7 @@ pub proof fn lemma_imp_sem(r: asp::Rule, vnames: Seq<String>, core: Formula, imp
                 assert(ht_sat(lhs, w, m, s) == (ht_sat(core, w, m, s) && ht_sat(nn, w, m, s)));
             }
             asp::Head::Basic(a) => {}
-            asp::Head::Falsity => { assert(tuple_vals(head_terms(r.head), s, zs(vnames, s))); }
+            asp::Head::Falsity => { assert(tuple_vals(head_args(r.head), s, zs(vnames, s))); }
         }
     }
     assert forall|w: World, m: HT, s: Asg| ht_wf(m) implies #[trigger] ht_sat(imp_rhs(imp), w, m, s) == head_rhs(r.head, vnames, w, m, s) by {
